@@ -44,9 +44,13 @@ CLAIMED.update({
          "Seeded search over operation histories x task interleavings (await points, handler stalls, yield points in the mailbox loop, exit propagation and registry removal). Oracles over the recorded history stamped with one global sequence: exactly-once in-order delivery per (sender, process) with the prefix rule for failed targets; exactly one exit / monitor notice per link / monitor in force at the failure, none after a completed unlink / demonitor, none spurious; terminated identifiers do not resolve; per-name register/unregister/whereis history (with the death of the owner as one removal inside the death interval) is linearizable against a map; behaviours answer each call once to its caller. Sampling, not proof.",
          "Trusted: tokio (mpsc, RwLock, paused clock); link/unlink on a pair and monitor/demonitor on a (watcher,target) pair are issued by one task so their order is known; single runtime thread per run.",
          "DESIGN.md section 3, C18"),
+ "C09": ("deterministic simulation: real FragmentAssembler fed by a simulated unordered, duplicating, dropping channel carrying 1..4 interleaved sequences under the simulated clock (expiry); all N! arrival orders for N<=5; reference = set-of-ids model",
+         "Seeded search over (sequences, cut positions, delivery permutation, duplicates, drops, out-of-range ids, time between deliveries, cleanup calls) plus exhaustive arrival orders of single sequences. Oracle: Some(result) exactly at the delivery that completes the model's record, None elsewhere; result classified as original / ascending-id concatenation (known finding) / other; pending_count and cleanup_expired agree with the model. Sampling plus small exhaustive enumerations, not proof.",
+         "Trusted: tokio paused clock; the simulator's fragmenter (numbers fragments N..1 in stream order as the protocol document prescribes).",
+         "DESIGN.md section 3, C09"),
 })
 
-PENDING = {k: 'check under construction in this session (simulation applies; see DESIGN.md); not claimed yet' for k in ['C06','C09','C14','C16']}
+PENDING = {k: 'check under construction in this session (simulation applies; see DESIGN.md); not claimed yet' for k in ['C06','C14','C16']}
 
 def main():
     hooks = subprocess.run(["git","-C","/repo","log","--format=%H %s","--grep=^verif hook"],capture_output=True,text=True).stdout.strip().splitlines()
